@@ -111,5 +111,22 @@ TRename ==
          Ev.names_after = Renamed(Ev.inp, SeqToSet(Ev.added), Ev.names, Sub))
   /\ UNCHANGED <<tnow, tin>> /\ Step
 
-TNext == TBuilderOrder \/ TReplace \/ TReplaceVar \/ TRename \/ TWiring \/ TVarGraph \/ TBuilder \/ TEpochStart \/ TAdvance \/ TSetSeed \/ TGroup
+\* GraphBuilder.update(): the reachable nodes are computed and named, the builder keeps its list, no node is left in a model
+TGbUpdate ==
+  /\ IsEvent("gb_update")
+  /\ Chk("update_computes_every_reachable_node_from_scratch",
+         Ev.vals_after = UpdatedVals(Ev.inp, Ev.added, Ev.vals))
+  /\ Chk("update_names_the_unnamed_reachable_nodes_in_visiting_order",
+         Ev.names_after = MissingNamesSet(Ev.inp, Ev.added, Ev.names))
+  /\ Chk("update_leaves_the_builder_and_the_nodes_free",
+         Ev.added_after = Ev.added /\ Ev.all_free /\ Ev.no_model_inputs_left)
+  /\ Chk("count_node_names_counts_the_reachable_named_nodes",
+         LET nc == NameCounts(Ev.inp, Ev.added, Ev.names_after) IN
+         /\ DOMAIN nc = {Ev.counts[i][1] : i \in 1..Len(Ev.counts)}
+         /\ \A i \in 1..Len(Ev.counts) : nc[Ev.counts[i][1]] = Ev.counts[i][2])
+  /\ Chk("copy_of_the_builder_is_independent_of_the_original",
+         Ev.copy_same_list /\ Ev.original_unchanged_by_adding_to_the_copy)
+  /\ UNCHANGED <<tnow, tin>> /\ Step
+
+TNext == TGbUpdate \/ TBuilderOrder \/ TReplace \/ TReplaceVar \/ TRename \/ TWiring \/ TVarGraph \/ TBuilder \/ TEpochStart \/ TAdvance \/ TSetSeed \/ TGroup
 =============================================================================
